@@ -8,9 +8,10 @@ package main
 //            ParseSignatureInPackage, ParseSignature, LookupSignature; build.Context.Package +
 //            Implement on an on-disk package).  The REAL printer.NewStubs output is
 //            (a) compared with go/format applied to the Lean model's pre-format text (c12fmt
-//            post-processes the model's answers), (b) judged by the Lean acceptor (package clause,
+//            post-processes the model's answers), (b) judged by the Lean acceptors (package clause,
 //            declarations in order, directives, constraint lines equal to those of the assembly
-//            output), (c) measured with the Go toolchain: go/parser, go/types (file type-checks;
+//            output; generated-code comment and every declaration text equal to what was given, up to
+//            layout: `accept-verbatim`), (c) measured with the Go toolchain: go/parser, go/types (file type-checks;
 //            every signature types.Identical to the one the harness evaluated itself from the
 //            expression), doc and directives attached, go/format idempotence;
 //   c12fmt   format.Source over the model's `stubs` answers;
@@ -36,6 +37,7 @@ import (
 	"regexp"
 	"sort"
 	"strings"
+	"unicode"
 
 	"github.com/mmcloughlin/avo/attr"
 	"github.com/mmcloughlin/avo/build"
@@ -446,6 +448,15 @@ func c12MeasureRaw(c *c12Case, out string) string {
 	if len(af.Imports) != 0 {
 		return "unexpected-imports"
 	}
+	// the generated-code comment is the first line and names the tool / command line verbatim
+	// (expected text computed here from the configuration, not taken from avo)
+	gen := c.cfg.Name
+	if c.cfg.Argv != nil {
+		gen = "command: " + strings.Join(c.cfg.Argv, " ")
+	}
+	if first, _, _ := strings.Cut(out, "\n"); first != strings.TrimSpace("// Code generated by "+gen+". DO NOT EDIT.") {
+		return "generated-comment"
+	}
 	// build constraint lines anywhere in the file: exactly the file's constraint block
 	var cons []string
 	for _, l := range strings.Split(out, "\n") {
@@ -589,7 +600,8 @@ func c12MeasureRaw(c *c12Case, out string) string {
 
 // c12Unstable classifies a go/format instability. Finding F16 is the class `doc-comment:code+list`:
 // the two texts differ ONLY inside the non-directive lines of doc comment groups of declarations
-// whose given doc has both an indented (code) line and a list-item line.
+// whose given doc has both an indented (code) line and a list-item line. Finding F16b is the class
+// `doc-comment:linkdef+old-heading` (c12LinkDefThenOldHeading), same condition on where the texts differ.
 func c12Unstable(c *c12Case, fset *token.FileSet, af *ast.File, out, again string) string {
 	docLines := map[int]int{} // line → function index
 	for i, d := range af.Decls {
@@ -647,7 +659,15 @@ func c12Unstable(c *c12Case, fset *token.FileSet, af *ast.File, out, again strin
 	if strip(out, docLines) != strip(again, docLines2) {
 		return "not-gofmt-stable/code"
 	}
+	// classes, by the GIVEN doc of every declaration whose comment changed (deterministic order;
+	// precedence other > linkdef+old-heading > code+list)
+	verdict := "not-gofmt-stable/doc-comment:code+list"
+	idx := make([]int, 0, len(changed))
 	for i := range changed {
+		idx = append(idx, i)
+	}
+	sort.Ints(idx)
+	for _, i := range idx {
 		code, list := false, false
 		for _, l := range c.desc.Fns[i].Doc {
 			t := strings.TrimLeft(l, " \t")
@@ -658,11 +678,69 @@ func c12Unstable(c *c12Case, fset *token.FileSet, af *ast.File, out, again strin
 				list = true
 			}
 		}
-		if !(code && list) {
+		switch {
+		case code && list:
+		case c12LinkDefThenOldHeading(c.desc.Fns[i].Doc):
+			verdict = "not-gofmt-stable/doc-comment:linkdef+old-heading"
+		default:
 			return "not-gofmt-stable/doc-comment:other"
 		}
 	}
-	return "not-gofmt-stable/doc-comment:code+list"
+	return verdict
+}
+
+var c12ReLinkDef = regexp.MustCompile(`^\[[^\]\n]+\]:\s+\S+\s*$`)
+
+// c12LinkDefThenOldHeading: finding F16b. The doc has a link-definition line and ends with a one-line
+// paragraph (blank line before it) that go/doc/comment would read as an old-style heading if something
+// followed it (isOldHeading: starts with an upper-case letter, ends with a letter or digit, none of
+// `;:!?+*/=[]{}_^°&§~%#@<">\`, `'` only as possessive, `.` only inside a word). The first format pass moves
+// the link definition to the END of the comment; only then is the last line followed by a blank line and
+// an unindented line, and the second pass rewrites it as `# heading`.
+func c12LinkDefThenOldHeading(doc []string) bool {
+	n := len(doc)
+	if n < 3 || strings.TrimSpace(doc[n-2]) != "" {
+		return false
+	}
+	def := false
+	for _, l := range doc[:n-2] {
+		if c12ReLinkDef.MatchString(l) {
+			def = true
+		}
+	}
+	line := strings.TrimSpace(doc[n-1])
+	if !def || line == "" || strings.TrimLeft(doc[n-1], " \t") != doc[n-1] {
+		return false
+	}
+	rs := []rune(line)
+	if !unicode.IsLetter(rs[0]) || !unicode.IsUpper(rs[0]) {
+		return false
+	}
+	if last := rs[len(rs)-1]; !unicode.IsLetter(last) && !unicode.IsDigit(last) {
+		return false
+	}
+	if strings.ContainsAny(line, ";:!?+*/=[]{}_^°&§~%#@<\">\\") {
+		return false
+	}
+	for b := line; ; {
+		var ok bool
+		if _, b, ok = strings.Cut(b, "'"); !ok {
+			break
+		}
+		if b != "s" && !strings.HasPrefix(b, "s ") {
+			return false
+		}
+	}
+	for b := line; ; {
+		var ok bool
+		if _, b, ok = strings.Cut(b, "."); !ok {
+			break
+		}
+		if b == "" || strings.HasPrefix(b, " ") {
+			return false
+		}
+	}
+	return true
 }
 
 // c12WellFormed: no newline in any token; Stub() is `func NAME(`… with no `(` in NAME; the constraint
@@ -728,6 +806,9 @@ func c12Emit(o *out, c *c12Case, st map[string]int) (stub, asm string, ok bool) 
 	}
 	o.emit("stubs "+e.String(), hexs(stub))
 	o.emit("accept-stubs "+e.String()+" "+hexs(stub), "ok")
+	// user text transported verbatim (Lean acceptor `acceptVerbatim`): generated-code comment, and every
+	// declaration equal to Stub() up to layout characters
+	o.emit("accept-verbatim "+e.String()+" "+hexs(stub), "ok")
 	asm, astatus := c12PrintAsm(c.cfg, c.file)
 	if astatus == "ok" {
 		st["judged_cons"]++
@@ -744,6 +825,27 @@ func c12Emit(o *out, c *c12Case, st map[string]int) (stub, asm string, ok bool) 
 		}
 		if len(fn.Doc) > 0 && len(fn.Pragmas) > 0 {
 			st["judged_fn_doc_and_pragma"]++
+		}
+	}
+	for _, fn := range c.file.Functions() {
+		c12AlphabetStats(st, "judged_stub", fn.Stub())
+		for _, l := range fn.Doc {
+			c12AlphabetStats(st, "judged_doc", l)
+		}
+		for _, p := range fn.Pragmas {
+			for _, a := range p.Arguments {
+				c12AlphabetStats(st, "judged_pragma_arg", a)
+			}
+		}
+	}
+	c12AlphabetStats(st, "judged_cfg", c.cfg.Name+" "+strings.Join(c.cfg.Argv, " "))
+	c12AlphabetStats(st, "judged_pkg", c.cfg.Pkg)
+	if cons, err := c12ConstraintLines(c.file); err == nil {
+		for _, l := range cons {
+			if strings.IndexFunc(l, func(r rune) bool { return r >= 0x80 }) >= 0 {
+				st["judged_cons_nonascii"]++
+				break
+			}
 		}
 	}
 	st["judged_fn"] += len(c.file.Functions())
@@ -764,6 +866,29 @@ func c12Emit(o *out, c *c12Case, st map[string]int) (stub, asm string, ok bool) 
 	return stub, asm, astatus == "ok"
 }
 
+// c12AlphabetStats counts, per position copied into the stub file, the texts that contain characters special
+// to some layer (the sample floors of the check are on these counters: measured on what reached the printer).
+func c12AlphabetStats(st map[string]int, key, text string) {
+	if strings.Contains(text, "%") {
+		st[key+"_percent"]++
+	}
+	if strings.ContainsAny(text, "\"\\") {
+		st[key+"_quote_backslash"]++
+	}
+	if strings.Contains(text, "`") {
+		st[key+"_backquote"]++
+	}
+	if strings.Contains(text, "//") || strings.Contains(text, "/*") {
+		st[key+"_comment_marker"]++
+	}
+	for i := 0; i < len(text); i++ {
+		if text[i] >= 0x80 {
+			st[key+"_nonascii"]++
+			break
+		}
+	}
+}
+
 // c12Forced: witnesses of the listed findings, produced by every run.
 func c12Forced() []c12Desc {
 	one := func(fn c12FnDesc, via string) c12Desc {
@@ -772,6 +897,8 @@ func c12Forced() []c12Desc {
 	return []c12Desc{
 		// F16: go/format is not idempotent on this doc comment
 		one(c12FnDesc{Name: "f", Sig: "func(x uint64) uint64", Route: "new", Doc: []string{"  indented code", " - item", "  indented code"}}, "ir"),
+		// F16b: link definition + final old-style-heading look-alike
+		one(c12FnDesc{Name: "f", Sig: "func(x uint64) uint64", Route: "new", Doc: []string{"f does it.", "", "[Link]: https://x.y", "", "Notes"}}, "ir"),
 		// C12-doc-newline / C12-pragma-newline
 		one(c12FnDesc{Name: "f", Sig: "func(x uint64) uint64", Route: "expr", Doc: []string{"f doc", c12DocNewline}}, "ctx"),
 		one(c12FnDesc{Name: "f", Sig: "func(x uint64) uint64", Route: "expr", Pragmas: [][]string{{c12PragmaNewline}}}, "ctx"),
@@ -787,6 +914,14 @@ func c12Forced() []c12Desc {
 		one(c12FnDesc{Name: "Split", Sig: "func(v uint64) (r struct{lo uint32; hi uint32})", Route: "parse"}, "ir"),
 		one(c12FnDesc{Name: "Split", Sig: "func(v interface{ M(x int); N() }) (r struct{lo uint32})", Route: "expr", Pragmas: [][]string{{"nosplit"}}}, "ctx"),
 		one(c12FnDesc{Name: "Add", Sig: "func(x, y *uint64, z *uint64)", Route: "expr", Doc: []string{"Add adds x and y.", "", "None of the pointers escape."}, Pragmas: [][]string{{"noescape"}, {"nosplit"}}}, "ctx"),
+		// user text over the whole alphabet in every position copied into the stub file (seeded change C12-6):
+		// fmt verbs, both quoting characters, backslash, comment markers, escapes, non-ASCII
+		one(c12FnDesc{Name: "Dump", Sig: "func(s struct{ Lo uint32 `fmt:\"%08x\"`; Hi uint32 `%d %s %v %% %!` }) uint32", Route: "expr"}, "ctx"),
+		one(c12FnDesc{Name: "Dump", Sig: "func(s struct{ A T \"a`b\\\\c\\\"d\\ne//f/*g*/\\x00\\xff\"; U `%[1]*d` }) (r struct{ _ int8 \"%!x(MISSING)\" })", Route: "parse"}, "ir"),
+		one(c12FnDesc{Name: "Dump", Sig: "func(m map[struct{ k int8 `%s` }]func(struct{ v T \"100%\" }) chan struct{ c U `%v;` })", Route: "lookup",
+			Doc: []string{"Dump is 100% %d %s %v %% %! \\n \"q\" `raw` it's /* */ // · 世界"}, Pragmas: [][]string{{"linkname", "Dump", "runtime.dump%d"}, {"wasmimport", "100%s", "`%v`\\\"·"}}}, "implement"),
+		{Tool: "%d%s \"q\" `r` \\ é·", Pkg: "π", HasArgv: true, Argv: []string{"go", "run", "%v.go", "-tag=`x\\`", "世界"}, Cons: []string{"ünï"}, Via: "ctx",
+			Fns: []c12FnDesc{{Name: "Σ", Sig: "func(ñ Ünï, _ struct{ é int \"é·世\" }) (ρ uint64)", Route: "new", Doc: []string{"Σ summe · %"}, Pragmas: [][]string{{"linkname", "Σ", "runtime·σ%"}}}}},
 	}
 }
 
@@ -1034,7 +1169,7 @@ func c12RunBuild(args []string) error {
 	defer o.close()
 	r := newRng(*f.seed ^ 0xc12b)
 	st := map[string]int{}
-	g := &c12Gen{r: r, st: st}
+	g := &c12Gen{r: r, st: st, vet: true}
 	mod := filepath.Join(*work, "mod")
 	os.RemoveAll(mod)
 	if err := os.MkdirAll(filepath.Join(mod, "q"), 0o755); err != nil {
